@@ -102,7 +102,17 @@ class _Run:
     # ------------------------------------------------------------ program interpretation
     def fut(self, f):
         if f not in self.futs:
-            fu = asyncio.Future(loop=self.vloop)
+            run = self
+
+            class ObservedFuture(asyncio.Future):
+                """records every successful cancel(), whoever calls it (a program op or run_sync's timeout)"""
+
+                def cancel(fu, msg=None):
+                    ok = asyncio.Future.cancel(fu, msg)
+                    if ok:
+                        run.emit([RS, f, 2, 0])
+                    return ok
+            fu = ObservedFuture(loop=self.vloop)
             self.futs[f] = fu
             self.fut_ids[id(fu)] = f
         return self.futs[f]
@@ -153,7 +163,7 @@ class _Run:
             fn = self.make_fn(i, body, 1)
             nowt = ticks(io.time())
             d = t if form in (0, 3) else nowt + t
-            self.emit([ST, i, d, max(d, nowt)])
+            self.emit([ST, i, d])
             if form == 0:
                 h = io.add_timeout(T0 + t * TICK, fn)
             elif form == 1:
@@ -182,8 +192,7 @@ class _Run:
                     fu.set_exception(UserErr(op[2]))
                     self.emit([RS, op[1], 1, op[2]])
                 else:
-                    if fu.cancel():
-                        self.emit([RS, op[1], 2, 0])
+                    fu.cancel()
             except asyncio.InvalidStateError:
                 self.emit([OR])
                 raise
@@ -481,8 +490,12 @@ def corpus_cases():
     cs = []
     # four and more equal deadlines: heapq order is not FIFO (asyncio TimerHandle compares `when` only)
     cs.append(prog(B([to(0, 4), to(1, 4), to(2, 4), to(3, 4), to(0, 4), to(0, 4), to(1, 4)])))
-    # overdue deadlines scheduled late run in heap order, not deadline order (documented finding)
+    # overdue deadlines: the witness of the former defect (call_at clamped overdue deadlines to "now", so these ran in
+    # call order); since the fix the one with the earlier requested deadline runs first
     cs.append(prog(B([to(1, 10, B([to(0, 8), to(0, 5)]))])))
+    cs.append(prog(B([to(1, 10, B([to(0, 8), to(3, 5), to(2, -7), to(1, -4), to(0, 9), to(0, 8)]))])))
+    # a timeout scheduled during an iteration does not overtake the ones that iteration already collected
+    cs.append(prog(B([to(0, 10, B([to(0, 5)])), to(0, 10)])))
     # a slow callback makes several different deadlines overdue at once: they run in deadline order
     cs.append(prog(B([to(0, 7), to(0, 3), to(0, 5), to(0, 1), to(0, 9), to(1, 1, B([["adv", 7], to(0, 2), to(0, 12)]))])))
     # remove a timeout that is already in the ready queue of this iteration
@@ -587,31 +600,41 @@ def classify(case, o):
             yield "has=" + EVNAMES[k]
     its = [e for e in tr if e[0] == IT]
     yield "iterations=" + ("1" if len(its) <= 1 else "2-3" if len(its) < 4 else "4-7" if len(its) < 8 else "8+")
-    if literal_deadline_inversion(tr):
-        yield "overdue-deadline-inversion"
+    inv = literal_deadline_inversion(tr)
+    if inv:
+        yield "earlier-deadline-waits=" + inv
     if case["kind"] == "sync":
         yield "sync=" + str(o[0][0] if not isinstance(o[0][0], list) else o[0][0][0])
 
 
 def literal_deadline_inversion(tr):
-    """a timeout ran while another pending, not removed timeout had a strictly earlier *requested* deadline"""
+    """a timeout ran while another pending, not removed timeout had a strictly earlier requested deadline.
+    Since the call_at fix this only happens when the earlier one was scheduled DURING the iteration that had already
+    collected the running one (returns "young"); anything else (returns "old") is a violation caught by the monitor."""
     pend = {}
+    worst = None
     for e in tr:
-        if e[0] == ST:
-            pend[e[1]] = [e[2], False]
+        if e[0] == IT:
+            for v in pend.values():
+                v[2] = True
+        elif e[0] == ST:
+            pend[e[1]] = [e[2], False, False]
         elif e[0] == RM and e[1] in pend:
             pend[e[1]][1] = True
-        elif e[0] == RUN and e[1] in pend:
+        elif e[0] == RUN and e[2] == 1 and e[1] in pend:
             d = pend.pop(e[1])[0]
-            if any((not rm) and d2 < d for (d2, rm) in pend.values()):
-                return True
-    return False
+            for (d2, rm, old) in pend.values():
+                if (not rm) and d2 < d:
+                    if old:
+                        return "old"
+                    worst = "young"
+    return worst
 
 
 def signature(case, o):
     try:
-        if literal_deadline_inversion(o[1]):
-            return "overdue-deadline-inversion"
+        if literal_deadline_inversion(o[1]) == "old":
+            return "requested-deadline-order-violated"
     except Exception:
         pass
     return case["kind"]
@@ -660,7 +683,7 @@ def _chk_struct(sync, tr):
                 return False
             nxt += 1
         elif k == ST:
-            if e[1] != nxt or cur is None or now is None or e[3] != max(now, e[2]):
+            if e[1] != nxt or cur is None or now is None:
                 return False
             nxt += 1
         elif k == ADV:
@@ -671,7 +694,7 @@ def _chk_struct(sync, tr):
             if cur is None or not e[1] < nxt:
                 return False
         elif k == RS:
-            if cur is None or e[2] not in (0, 1, 2):
+            if e[2] not in (0, 1, 2) or (cur is None and not (sync and e[2] == 2)):
                 return False
         elif k == OR:
             if cur is None:
@@ -711,14 +734,19 @@ def _chk_cb(idle, tr):
 
 
 def _chk_to(idle, tr):
+    """pend[i] = [requested deadline, old (scheduled before the current iteration began), removed]"""
     now, pend = 0, {}
     for e in tr:
-        if e[0] in (IT, ADV):
+        if e[0] == IT:
+            now = e[1]
+            for v in pend.values():
+                v[1] = True
+        elif e[0] == ADV:
             now = e[1]
         elif e[0] == ST:
             if e[1] in pend:
                 return False
-            pend[e[1]] = [e[2], e[3], False]
+            pend[e[1]] = [e[2], False, False]
         elif e[0] == RM:
             if e[1] in pend:
                 pend[e[1]][2] = True
@@ -726,15 +754,15 @@ def _chk_to(idle, tr):
             i = e[1]
             if i not in pend:
                 return False
-            d, eff, rm = pend[i]
-            if rm or now < d or any((not r2) and e2 < eff for (_, e2, r2) in pend.values()):
+            d, _, rm = pend[i]
+            if rm or now < d or any(old and (not r2) and d2 < d for (d2, old, r2) in pend.values()):
                 return False
             del pend[i]
     return all(rm for (_, _, rm) in pend.values()) if idle else True
 
 
-def _chk_fut(idle, cancel_ok, tr):
-    afs, res, cell = {}, {}, None
+def _chk_fut(idle, tr):
+    afs, res = {}, {}
     for e in tr:
         if e[0] == IT:
             for v in afs.values():
@@ -749,15 +777,12 @@ def _chk_fut(idle, cancel_ok, tr):
             if e[1] in res:
                 return False
             res[e[1]] = False
-        elif e[0] == END and e[2] == 3 and e[1] == 0 and cancel_ok:
-            cell = e[3]
         elif e[0] == RUN and e[2] == 2:
             i = e[1]
             if i not in afs:
                 return False
             f, aged = afs[i]
-            ok = res[f] if f in res else (cell is not None and f == cell)
-            if not (aged and ok):
+            if not (aged and res.get(f, False)):
                 return False
             del afs[i]
     return all(f not in res for (f, _) in afs.values()) if idle else True
@@ -823,35 +848,43 @@ def py_check(case, o):
     tr = o[1]
     if case["kind"] == "prog":
         return (o[0] == "idle" and _chk_struct(False, tr) and _chk_cb(True, tr) and _chk_to(True, tr)
-                and _chk_fut(True, False, tr) and _chk_log(False, True, tr))
+                and _chk_fut(True, tr) and _chk_log(False, True, tr))
     if not (isinstance(o[0], list) and len(o[0]) == 2):
         return False
     r, fs = o[0]
     idle = r == "idle"
     to = case["timeout"]
-    return (_chk_struct(True, tr) and _chk_cb(idle, tr) and _chk_to(idle, tr) and _chk_fut(idle, to is not None, tr)
+    return (_chk_struct(True, tr) and _chk_cb(idle, tr) and _chk_to(idle, tr) and _chk_fut(idle, tr)
             and _chk_log(True, idle, tr) and _sync_ok(to, tr, r, fs))
 
 
 TRUSTED_BASE = [
-    "CPython 3.12 asyncio (BaseEventLoop._run_once/run_forever/call_soon/call_at, heapq, Future callbacks) is MODELLED in Gallina, not verified; "
-    "the model is tied to it only by the correspondence runs",
-    "harness/vclock.py virtual clock (selector advances the clock by the select timeout; time.time patched); the harness stops the loop when the selector would block forever",
-    "the harness's trace recorder (wrappers around the scheduled functions, a logging handler on tornado.application/asyncio, iteration marks in the selector)",
-    "threads: the multi-thread add_callback clause is a harness-level stress check only; the Coq theorem covers every interleaving of ATOMIC appends to the ready deque "
-    "(call_soon_threadsafe's deque.append under the GIL), real preemption is not exhibited",
+    "CPython 3.12 asyncio (BaseEventLoop._run_once/run_forever/call_soon/call_at, heapq with TimerHandle.__lt__ on _when only, Future callbacks) is MODELLED in Gallina, "
+    "not verified; the model is tied to it only by the correspondence runs",
+    "harness/vclock.py virtual clock (selector advances the clock by the select timeout; time.time patched); the harness stops the loop when the selector would block forever; "
+    "callbacks take virtual time only through the explicit 'adv' op",
+    "the harness's trace recorder (wrappers around the scheduled functions, a logging handler on tornado.application/tornado.general/asyncio, the loop exception handler, "
+    "iteration marks in the selector, a Future subclass recording successful cancel())",
+    "threads: the multi-thread add_callback clause is a harness-level stress check ONLY; the Coq theorem covers every interleaving of ATOMIC appends to the ready deque "
+    "(call_soon_threadsafe's deque.append under the GIL); real preemption is not exhibited",
 ]
 ASSUMPTIONS = [
-    "times are multiples of 0.25 s around a virtual epoch, so every float operation in call_at/call_later is exact and `when < now + clock_resolution` is `when <= now`",
+    "times are multiples of 0.25 s around a virtual epoch, so every float operation in call_at/call_later is exact (TimerHandle._when equals the requested deadline) "
+    "and `when < now + clock_resolution` is `when <= now`",
     "fewer than 100 timers are pending at once (asyncio's bulk clean-up of cancelled timers, taken above 100 scheduled handles, is not modelled)",
     "callbacks raise Exception subclasses (a BaseException such as KeyboardInterrupt does stop the loop; outside the property)",
+    "the theorems are about runs that end (idle or stopped); that the fuel computed from the program size always suffices is not proved (it does on every generated case)",
 ]
-RULE = ("random scheduling programs (5 profiles: mixed / equal deadlines / futures / overdue deadlines / callbacks; tree size 1-25) as IOLoop programs and as run_sync functions "
-        "with timeouts, every op sequence of length <= 2 (thorough; plus half the alphabet at length 3) over a 27-op alphabet, equal-deadline heaps of 2..23 timers with removals, "
-        "thread stress runs; distinct by (program, observable); non-trivial = program with at least one op")
+RULE = ("random scheduling programs (6 profiles: mixed / equal deadlines / futures / overdue deadlines / slow callbacks / callbacks; tree size 1-25) as IOLoop programs and as "
+        "run_sync functions with timeouts; every op sequence of length <= 2 over a 28-op alphabet and, in the thorough tier, every length-3 sequence over half of it; "
+        "equal-deadline heaps of 2..23 timers with removals; thread stress runs; distinct by (program, observable); non-trivial = program with at least one op")
 LEVEL_TEXT = ("Machine-checked (Coq) theorems over an executable model of IOLoop.add_callback/add_timeout/call_later/call_at/remove_timeout/add_future/_run_callback/run_sync on "
-              "asyncio's _run_once (ready FIFO + heapq of timers): for every scheduling program, see coq/C38/Property.v and NOTES.md. The model is compared event-by-event with a real "
-              "IOLoop on the virtual-clock loop, and a trace monitor (check_case / py_check) that never calls the model checks the property on the real trace.")
-LEVEL_NOTE = ("Trusted: Coq kernel/vm_compute; the Gallina model of asyncio; virtual clock + trace recorder; thread clause is a stress check only. "
-              "Finding (documented, not failing the check): timeouts scheduled with deadlines already in the past run in heap order of max(deadline, now), not in order of the requested deadlines.")
-TECHNIQUE = "Coq proof (heapq invariants, loop invariants over all programs) + differential correspondence on a real IOLoop with a virtual clock + independent trace monitor"
+              "asyncio's _run_once (ready FIFO + heapq of timers, heapq proved correct): for EVERY scheduling program and both ends of the loop: add_callback callbacks run exactly "
+              "once in scheduling order; timeouts run at most once, not before their deadline, never after remove_timeout, in order of their REQUESTED deadlines (overdue ones included, ties "
+              "unordered; a timeout scheduled during an iteration cannot overtake those the iteration already collected), and all run unless removed; raising callbacks are logged immediately and nothing else is; add_future callbacks start only after an iteration boundary following both the "
+              "call and the resolution; final future states match the trace; run_sync's result vs the returned future (partial). The model is compared event-by-event with a real IOLoop "
+              "on the virtual-clock loop, and a trace monitor (check_case / py_check) that never calls the model checks the property on the real trace.")
+LEVEL_NOTE = ("Trusted: Coq kernel/vm_compute; the Gallina model of asyncio; virtual clock + trace recorder; thread clause is a stress check only. Partial: termination (fuel) not proved; "
+              "run_sync theorem partial; check_case(run_case) proved for a 13821-input small scope only. "
+              "The former finding (overdue deadlines ran in call order because call_at clamped them) is fixed in /repo and kept as a corpus case; equal deadlines are unordered (heapq).")
+TECHNIQUE = "Coq proof (heapq invariants, loop invariants over atomic actions for all programs) + differential correspondence on a real IOLoop with a virtual clock + independent trace monitor"
